@@ -90,8 +90,15 @@ class HistGen:
 
     def __init__(self, rng, with_invalid=True, max_exp=3, simple_derived=0.0,
                  refless_derived=0.0, split_items=0.0, alias=0.12, odd_symbols=0.15,
-                 long_names=None):
+                 long_names=None, undefined_units=0.0, undefined_multiples=False):
         self.rng = rng
+        # probability that a unit WITHOUT definition is declared in a base
+        # type that HAS a reference unit (it has no scale and converts to
+        # nothing); `undefined_multiples`: units defined over such a unit too
+        # (accepted by the code; their stored scale means nothing, so only
+        # histories whose oracle does not read scales ask for them)
+        self.undefined_units = undefined_units
+        self.undefined_multiples = undefined_multiples
         self.w = World()
         self.w.long_names = (rng.random() < .3) if long_names is None else long_names
         self.with_invalid = with_invalid
@@ -366,6 +373,27 @@ class HistGen:
     def refless_unit(self):
         w = self.w
         cands = [n for n, c in w.classes.items() if c["ref"] is None and "items" not in c]
+        if self.rng.random() < self.undefined_units:
+            und = [s for s, u in w.units.items() if u.get("undefined")]
+            if und and self.undefined_multiples and self.rng.random() < .5:
+                r = self.rng.choice(und)
+                sym = w.fresh("z")
+                w.units[sym] = dict(cls=w.units[r]["cls"], scale=None, dim=w.units[r]["dim"],
+                                    base=(r, 1))
+                w.classes[w.units[r]["cls"]]["units"].append(sym)
+                op = ["new_unit", w.units[r]["cls"], sym, "term", fmt_uterm(None, [(r, 1)])] \
+                    if self.rng.random() < .5 else \
+                    ["new_unit", w.units[r]["cls"], sym, "qty", "5/2", r, MODE]
+                return dict(op=op, expect="ok", kind="undefined-multiple", new_sym=sym)
+            lin = [n for n, c in w.classes.items()
+                   if c["ref"] is not None and "items" not in c and c["quantum"] is None]
+            if lin:
+                cls = self.rng.choice(lin)
+                sym = w.fresh("z")
+                w.units[sym] = dict(cls=cls, scale=None, dim=w.classes[cls]["dim"], undefined=True)
+                w.classes[cls]["units"].append(sym)
+                return dict(op=["new_unit", cls, sym, "none"], expect="ok",
+                            kind="undefined-unit", new_sym=sym)
         if not cands:
             return None
         cls = self.rng.choice(cands)
